@@ -85,6 +85,25 @@ PROPS = {
         "explanation": "wip",
         "assumptions": [],
     },
+    "C02": {
+        "units": ["ext"],
+        "level": "other",
+        "property_obligations": ["ValidatedExternalEquivalenceTask::decompose"],
+        "carriers": ["AnnotatedFormula::into_problem_formula", "WithWarnings::preface_warnings"],
+        "explanation": "Only the routing step of C02 is decided: Verus proves on the real ValidatedExternalEquivalenceTask::decompose that the assembled task it hands on has exactly the premises/conclusions the "
+                       "property names, as folds over the formulas in order (spec/route_spec.rs): user-guide assumptions and universal assumptions of both sides are premises of both directions; the left side's "
+                       "forward-annotated assumptions and its universal/forward specs are forward premises, its universal/backward specs are backward conclusions (as themselves or, with eq-break, as the broken family); "
+                       "the right side the mirror image; a directed assumption on the wrong side is dropped; outline, decomposition and direction are passed on unchanged; the unreachable!() arms are unreachable when all roles "
+                       "are Assumption or Spec. NOT decided: ExternalEquivalenceTask::decompose (tau*, completion, public/private classification, private renaming, placeholder replacement — closures over iterator chains), "
+                       "AssembledExternalEquivalenceTask::decompose (problem assembly) and the meaning-level statement of C02, which also needs C01 (partially proved), C04 (not applicable) and the completion theorem.",
+        "assumptions": [
+            "break_equivalences_annotated_formula: assumed contract `formulas == spec_broken(f)` (enumerate + format! in an iterator chain)",
+            "AssembledExternalEquivalenceTask::decompose is a stand-in (external_body) that only records its input",
+            "D19: the trait-impl method is verified as an inherent method (Self::Warning/Self::Error substituted)",
+            "ExternalEquivalenceTask::decompose (theory_translate, control_translate, renaming of clashing private predicates, ensure_* ordering): NOT verified",
+        ],
+        "not_covered": ["ExternalEquivalenceTask::decompose", "AssembledExternalEquivalenceTask::decompose", "RenamePredicates", "replace_placeholders", "completion"],
+    },
     "C09": {
         "units": ["problem"],
         "level": "other",
